@@ -412,12 +412,12 @@ func genC16(o *lib.Opts) {
 		emit("dec", mode, sc, strconv.Itoa(r.Pick(0, 1, 2, 2)), strings.Join(its, ","), genDecOps(r, n, r.Chance(1, 4)))
 	}
 	// 3. runs that wrap the 1 MiB span of one size class (and of several at once)
-	wraps := [][2]int{{100000, 12}, {130000, 9}, {40000, 28}}
+	wraps := [][2]int{{100000, 12}, {40000, 28}}
 	if modeSuffix == "~" && o.Tier != "thorough" {
 		wraps = [][2]int{{100000, 12}}
 	}
 	if o.Tier == "thorough" {
-		wraps = append(wraps, [2]int{200, 5500}, [2]int{1000, 1100}, [2]int{65536, 17}, [2]int{131071, 9})
+		wraps = append(wraps, [2]int{130000, 9}, [2]int{200, 5500}, [2]int{1000, 1100}, [2]int{65536, 17}, [2]int{131071, 9})
 	}
 	for _, w := range wraps {
 		for _, mode := range []string{"bin", "brd"} {
